@@ -269,6 +269,8 @@ impl LangInterpreter for French {
                 } else {
                     ""
                 };
+                // each candidate is probed on a clean scratch buffer
+                b.reset();
                 if previous_text != "numéro"
                     && self.apply(previous_text, &mut b).is_err()
                     && self.apply(next_text, &mut b).is_err()
